@@ -11,6 +11,7 @@ package props
 // Every statement answer is compared with the model; property-specific oracles hook in via Cfg.After.
 
 import (
+	"hash/crc32"
 	"fmt"
 	"os"
 	"sort"
@@ -504,7 +505,13 @@ func (w *World) HeapLayout() string {
 			cnt := tp.GetTupleCount()
 			fmt.Fprintf(&sb, "p%d[fsp%d", pid, tp.GetFreeSpacePointer())
 			for s := uint32(0); s < cnt && s < 512; s++ {
-				fmt.Fprintf(&sb, " %d/%x", tp.GetTupleOffsetAtSlot(s), tp.GetTupleSize(s))
+				off, sz := tp.GetTupleOffsetAtSlot(s), tp.GetTupleSize(s)
+				fmt.Fprintf(&sb, " %d/%x", off, sz)
+				// the bytes of the row too: an engine state whose rows differ from the model's (a write that
+				// was not rolled back, say) must not be merged with the state the model describes
+				if real := access.UnsetDeletedFlag(sz); off != 0 && real != 0 && int(off+real) <= len(tp.Data()) {
+					fmt.Fprintf(&sb, "/%08x", crc32.ChecksumIEEE(tp.Data()[off:off+real]))
+				}
 			}
 			sb.WriteString("]")
 			next := tp.GetNextPageID()
